@@ -14,7 +14,7 @@
 
    Second shape (harness retain.go, raw protocol / plain codec cells): values HELD while later
    frames are read.
-   inputs   (sheld nLIM sKIND (xFRAME ...))     KIND = string | bytes; the frames one end wrote, in wire order
+   inputs   (sheld nLIM sKIND (xFRAME ...))     KIND = string | bytes | named-string | named-bytes; the frames one end wrote, in wire order
    observed ((zSEQ nMTYPE xBYTES) ...)          ascending 4*SEQ+MTYPE: what the holder of each decoded body
             (handler for CALL / PUSH, caller for an OK REPLY) reads from its value after the LAST frame
    The model (Model/ReadBuf.v) reads every frame into the SAME pooled array - the worst case
@@ -196,6 +196,8 @@ Definition run_held (lim : N) (k : dkind) (fs : list bytes) : val :=
 Definition kind_of (v : val) : option dkind :=
   if sym_eqb v "string" then Some KPlainString
   else if sym_eqb v "bytes" then Some KBytesBody
+  else if sym_eqb v "named-string" then Some KPlainNamedString
+  else if sym_eqb v "named-bytes" then Some KPlainNamedBytes
   else None.
 
 Definition run (inp : val) : option val :=
